@@ -36,6 +36,7 @@ RULE = ("schedules over n worker processes (2-4 quick, up to 16 thorough) that e
         "lookup happens while another worker's compiler is between W0 and exit, or the schedule contains a kill at "
         "W1/W2; distinct by digest of the schedule.")
 ASSUMPTIONS = [
+    "trace cases: under strace -f the final cache name may only be created by rename(2); this covers a kill at any instant, also with TMPDIR on another filesystem (/dev/shm) when one is available",
     "free-run cases (workers released together with millisecond offsets, no block points) depend on real timing: they can only add failures that really happened, a pass there proves nothing by itself",
     "the scripted compiler reproduces the real linker's handling of the output path as observed with strace on this machine: unlink an existing file, open(O_CREAT|O_TRUNC) at the path given by -o, write in place",
     "schedules are those expressible through the block points the harness controls and SIGKILL crash points; a 60 s wait without progress is counted as inconclusive, never as a violation",
@@ -251,6 +252,73 @@ def check_schedule(case, rec):
         run.cleanup()
 
 
+@st.composite
+def trace_cases(draw):
+    return {"cross_fs": draw(st.booleans()), "k": draw(st.integers(0, 3))}
+
+
+def check_trace(case, rec):
+    """Every crash instant at once: under strace, the final cache name must only ever come into
+    existence by rename(2) - no process may create, truncate or write it in place."""
+    import re
+    base = tempfile.mkdtemp(prefix="c18t_", dir=os.environ.get("TMPDIR"))
+    tmpd = os.path.join(base, "tmp")
+    other = None
+    if case["cross_fs"] and os.path.isdir("/dev/shm") and os.access("/dev/shm", os.W_OK) \
+            and os.stat("/dev/shm").st_dev != os.stat(base).st_dev:
+        other = tempfile.mkdtemp(prefix="c18t_", dir="/dev/shm")
+        tmpd = other
+        rec.cls("trace:tmp-on-other-filesystem")
+    else:
+        os.makedirs(tmpd)
+        rec.cls("trace:same-filesystem")
+    rec.nontrivial(True, case)
+    try:
+        ctl, dll = os.path.join(base, "ctl"), os.path.join(base, "dll")
+        os.makedirs(ctl)
+        os.makedirs(dll)
+        plugin = os.path.join(base, "plug18.py")
+        with open(plugin, "w") as fh:
+            fh.write(PLUGIN.replace("plug18", "plug18t%d" % case["k"]))
+        open(os.path.join(ctl, "go_t_S"), "w").close()
+        envd = dict(os.environ, VERIF_CTL=ctl, VERIF_WID="t", SAS_DLL_PATH=dll, VERIF_FREE_RUN="1",
+                    PYTHONPATH=env.VERIF_ROOT, PYTHONHASHSEED="0", TMPDIR=tmpd)
+        envd.pop("CC", None)
+        out, trace = os.path.join(base, "out.json"), os.path.join(base, "trace.txt")
+        r = subprocess.run(["strace", "-f", "-qq", "-o", trace, "-e",
+                            "trace=open,openat,creat,rename,renameat,renameat2,link,linkat",
+                            sys.executable, "-m", "vp.c18_worker", plugin, out], cwd=env.VERIF_ROOT, env=envd,
+                           capture_output=True, text=True, timeout=300)
+        if not os.path.exists(trace) or "ptrace" in (r.stderr or "") and "Operation not permitted" in r.stderr:
+            rec.cls("strace-unavailable")
+            rec.nt = False
+            return
+        res = json.load(open(out)) if os.path.exists(out) else {}
+        if "result" not in res:
+            rec.fail("trace:worker-failed", "%s %s" % (res.get("error"), (r.stderr or "")[-300:]))
+            return
+        if not np.allclose(res["result"], WANT, rtol=1e-12, atol=0):
+            rec.fail("trace:wrong-values", "%r" % (res["result"],))
+        final = res["dllpath"]
+        writers, renames = [], 0
+        for line in open(trace, errors="replace"):
+            if '"%s"' % final not in line:
+                continue
+            if re.search(r"\b(open|openat|creat)\(", line) and re.search(r"O_CREAT|O_TRUNC|O_WRONLY|O_RDWR|creat\(", line):
+                writers.append(line.strip()[:200])
+            if re.search(r"\brename(at2?)?\(", line) and line.rstrip().split(",")[-2 if "renameat2" in line else -1].find(final) >= 0:
+                renames += 1
+        if writers:
+            rec.fail("trace:final-name-written-in-place:%s" % ("other-fs" if other else "same-fs"),
+                     "the final cache name was opened for writing: %s" % writers[0])
+        elif renames == 0:
+            rec.fail("trace:final-name-not-installed-by-rename", "no rename onto %s seen" % os.path.basename(final))
+    finally:
+        shutil.rmtree(base, ignore_errors=True)
+        if other:
+            shutil.rmtree(other, ignore_errors=True)
+
+
 def all_two_worker_orders():
     """Every distinct order in which two workers can take up to five steps each."""
     out = set()
@@ -260,7 +328,7 @@ def all_two_worker_orders():
     return sorted(out)
 
 
-CHECKS = {"schedule": check_schedule}
+CHECKS = {"schedule": check_schedule, "trace": check_trace}
 
 
 def plan(tier):
@@ -283,3 +351,7 @@ def run_shard(ctx, spec):
             ctx.run_case("schedule", {"n": 2, "schedule": pre, "kill": {"worker": 0, "at": at}})
     ctx.explore("schedule", schedules(4 if quick else 16), 2 if quick else 30, shrink=False)
     ctx.explore("schedule", free_runs(6 if quick else 16), 2 if quick else 25, shrink=False, salt=7)
+    # both placements of TMPDIR are enumerated (Hypothesis' first example is always the simplest one)
+    ctx.run_case("trace", {"cross_fs": bool(spec["k"] % 2), "k": spec["k"] % 4})
+    if not quick:
+        ctx.run_case("trace", {"cross_fs": not bool(spec["k"] % 2), "k": (spec["k"] + 1) % 4})
